@@ -9,8 +9,8 @@
    - merge_table_key1 / key2 : fold over the inputs in order, `if key in merged: continue`   (merge_tab)
    - merge_table_key3        : nested dict, `merged[t,d].setdefault(signal, entry)`          (merge_tab3)
    - feature sets per type   : union of image names, metadata of the first holder, assertion error when a
-                               later holder has different metadata                          (merge_fcoll)
-   - matches per type        : union of ordered image pairs                                   (merge_mcoll)
+                               later holder has different metadata                          (merge_gcoll)
+   - matches per type        : union of ordered image pairs                                   (merge_gcoll)
    - skip list, unskippable sensors/rigs, `get_new_if_not_empty` (an empty merged part stays None)
    - files: record files transferred per record kind by merge_records_data (first lister of a name wins),
      feature / matches files copied from the first holder of each image / pair, whatever the storage of
@@ -109,6 +109,71 @@ Section Tab3.
     match o with Some m => lookup3 a b m | None => None end.
 End Tab3.
 
+(* ------------------------------------------------------------------ feature sets and matches *)
+(* One generic definition serves the three image-feature kinds (member = image name, with metadata) and
+   matches (member = ordered image pair; merge_matches has no metadata: the token is constant there). *)
+Section Feat.
+  Context {N : Type} `{EqDec N}.
+  Definition gcoll := al string (tok * list N).                 (* type -> (metadata token, members) *)
+  Definition gstore := al (string * N) tok.                     (* (type, member) -> file content *)
+
+  Definition lookup_gc (ty : string) (c : option gcoll) : option (tok * list N) :=
+    match c with Some m => lookup ty m | None => None end.
+
+  (* _merge_image_features / merge_matches for one type over the inputs that hold it, in input order:
+     metadata must agree with the first holder (assert); members already merged are skipped (warning);
+     the file of every new member is copied from this holder *)
+  Fixpoint merge_feat1 (copy : bool) (ty : string) (m0 : tok) (acc : list N) (out : gstore)
+           (l : list (tok * list N * gstore)) : result (list N * gstore) :=
+    match l with
+    | [] => Ok (acc, out)
+    | (m, mem, src) :: l' =>
+        if negb (eqb m m0) then Err EAssert else
+        let fresh := add_set [] (List.filter (fun n => negb (memb n acc)) mem) in
+        let files := map (fun n => (n, lookup (ty, n) src)) fresh in
+        if copy && negb (forallb (fun kv => is_some (snd kv)) files) then Err EMissing else
+        let out' := if copy
+                    then fold_left (fun o kv => match snd kv with Some c => insert (ty, fst kv) c o | None => o end) files out
+                    else out in
+        merge_feat1 copy ty m0 (acc ++ fresh) out' l'
+    end.
+
+  Definition holders (ty : string) (cs : list (option gcoll * gstore)) : list (tok * list N * gstore) :=
+    somes (map (fun e => match lookup_gc ty (fst e) with Some v => Some (fst v, snd v, snd e) | None => None end) cs).
+
+  Fixpoint merge_types (copy : bool) (cs : list (option gcoll * gstore)) (tys : list string)
+           (accc : gcoll) (out : gstore) : result (gcoll * gstore) :=
+    match tys with
+    | [] => Ok (accc, out)
+    | ty :: tys' =>
+        match holders ty cs with
+        | [] => Err EAssert                                     (* assert len(val) > 0 *)
+        | ((m0, _, _) :: _) as hs =>
+            match merge_feat1 copy ty m0 [] out hs with
+            | Ok (names, out') => merge_types copy cs tys' (accc ++ [(ty, (m0, names))]) out'
+            | Err e => Err e
+            end
+        end
+    end.
+
+  (* merge_keypoints_collections & co. / merge_matches_collections as called by merge_keep_ids *)
+  Definition merge_gcoll (skp copy : bool) (cs : list (option gcoll * gstore)) : result (option gcoll * gstore) :=
+    if skp then Ok (None, []) else
+    match somes (map fst cs) with
+    | [] => Ok (None, [])
+    | colls =>
+        match merge_types copy cs (merge_set (map keys colls)) [] [] with
+        | Ok (c, out) => Ok (nonempty_opt c, out)
+        | Err e => Err e
+        end
+    end.
+End Feat.
+
+Definition fcoll := @gcoll string.                              (* type -> (metadata, images) *)
+Definition mcoll := al string (list (string * string)).        (* keypoints type -> ordered image pairs *)
+Definition mc_to_g (m : mcoll) : @gcoll (string * string) := map (fun e => (fst e, (""%string, snd e))) m.
+Definition g_to_mc (g : @gcoll (string * string)) : mcoll := map (fun e => (fst e, snd (snd e))) g.
+
 (* ------------------------------------------------------------------ datasets *)
 (* the 18 attributes of kapture.Kapture, in the order of its constructor *)
 Inductive part :=
@@ -139,8 +204,6 @@ Definition part_of_n (p : npart) : part := match p with NWifi => PWifi | NBt => 
 Definition part_of_i (p : ipart) : part := match p with IKp => PKp | IDesc => PDesc | IGf => PGf end.
 
 Notation tkey := (Z * string)%type (only parsing).
-Definition fcoll := al string (tok * list string).             (* type -> (metadata token, images) *)
-Definition mcoll := al string (list (string * string)).        (* keypoints type -> ordered image pairs *)
 
 Record kdata := {
   k_sensors : option (al string tok);
@@ -205,109 +268,6 @@ Definition transfer (st : strategy) (per_input : list (list string * al string t
       if existsb (fun kv => mem (fst kv) out) firsts then Err EExists else Ok (put_all firsts out)
   end.
 
-(* ------------------------------------------------------------------ feature sets *)
-Definition lookup_fc (ty : string) (c : option fcoll) : option (tok * list string) :=
-  match c with Some m => lookup ty m | None => None end.
-
-(* _merge_image_features for one type over the inputs that hold it, in input order:
-   metadata must agree with the first holder; names already merged are skipped; the file of every new
-   name is copied from this holder *)
-Fixpoint merge_feat1 (copy : bool) (ty : string) (m0 : tok) (acc : list string) (out : al (string * string) tok)
-         (l : list (tok * list string * al (string * string) tok))
-  : result (list string * al (string * string) tok) :=
-  match l with
-  | [] => Ok (acc, out)
-  | (m, imgs, src) :: l' =>
-      if negb (eqb m m0) then Err EAssert else
-      let fresh := add_set [] (List.filter (fun n => negb (memb n acc)) imgs) in
-      let files := map (fun n => (n, lookup (ty, n) src)) fresh in
-      if copy && negb (forallb (fun kv => is_some (snd kv)) files) then Err EMissing else
-      let out' := if copy
-                  then fold_left (fun o kv => match snd kv with Some c => insert (ty, fst kv) c o | None => o end) files out
-                  else out in
-      merge_feat1 copy ty m0 (acc ++ fresh) out' l'
-  end.
-
-Definition holders (ty : string) (cs : list (option fcoll * al (string * string) tok))
-  : list (tok * list string * al (string * string) tok) :=
-  somes (map (fun e => match lookup_fc ty (fst e) with Some v => Some (fst v, snd v, snd e) | None => None end) cs).
-
-Fixpoint merge_types (copy : bool) (cs : list (option fcoll * al (string * string) tok)) (tys : list string)
-         (accc : fcoll) (out : al (string * string) tok) : result (fcoll * al (string * string) tok) :=
-  match tys with
-  | [] => Ok (accc, out)
-  | ty :: tys' =>
-      match holders ty cs with
-      | [] => Err EAssert                                     (* assert len(val) > 0 *)
-      | (m0, _, _) :: _ as hs =>
-          match merge_feat1 copy ty m0 [] out hs with
-          | Ok (names, out') => merge_types copy cs tys' (accc ++ [(ty, (m0, names))]) out'
-          | Err e => Err e
-          end
-      end
-  end.
-
-(* merge_keypoints_collections & co. as called by merge_keep_ids *)
-Definition merge_fcoll (skp copy : bool) (cs : list (option fcoll * al (string * string) tok))
-  : result (option fcoll * al (string * string) tok) :=
-  if skp then Ok (None, []) else
-  match somes (map fst cs) with
-  | [] => Ok (None, [])
-  | colls =>
-      let tys := merge_set (map keys colls) in
-      match merge_types copy cs tys [] [] with
-      | Ok (c, out) => Ok (nonempty_opt c, out)
-      | Err e => Err e
-      end
-  end.
-
-(* matches: same shape, no metadata, keys are ordered pairs *)
-Definition lookup_mc (ty : string) (c : option mcoll) : option (list (string * string)) :=
-  match c with Some m => lookup ty m | None => None end.
-
-Fixpoint merge_match1 (copy : bool) (ty : string) (acc : list (string * string))
-         (out : al (string * (string * string)) tok)
-         (l : list (list (string * string) * al (string * (string * string)) tok))
-  : result (list (string * string) * al (string * (string * string)) tok) :=
-  match l with
-  | [] => Ok (acc, out)
-  | (prs, src) :: l' =>
-      let fresh := add_set [] (List.filter (fun n => negb (memb n acc)) prs) in
-      let files := map (fun n => (n, lookup (ty, n) src)) fresh in
-      if copy && negb (forallb (fun kv => is_some (snd kv)) files) then Err EMissing else
-      let out' := if copy
-                  then fold_left (fun o kv => match snd kv with Some c => insert (ty, fst kv) c o | None => o end) files out
-                  else out in
-      merge_match1 copy ty (acc ++ fresh) out' l'
-  end.
-
-Definition mholders (ty : string) (cs : list (option mcoll * al (string * (string * string)) tok)) :=
-  somes (map (fun e => match lookup_mc ty (fst e) with Some v => Some (v, snd e) | None => None end) cs).
-
-Fixpoint merge_mtypes (copy : bool) (cs : list (option mcoll * al (string * (string * string)) tok))
-         (tys : list string) (accc : mcoll) (out : al (string * (string * string)) tok)
-  : result (mcoll * al (string * (string * string)) tok) :=
-  match tys with
-  | [] => Ok (accc, out)
-  | ty :: tys' =>
-      match merge_match1 copy ty [] out (mholders ty cs) with
-      | Ok (prs, out') => merge_mtypes copy cs tys' (accc ++ [(ty, prs)]) out'
-      | Err e => Err e
-      end
-  end.
-
-Definition merge_mcoll (skp copy : bool) (cs : list (option mcoll * al (string * (string * string)) tok))
-  : result (option mcoll * al (string * (string * string)) tok) :=
-  if skp then Ok (None, []) else
-  match somes (map fst cs) with
-  | [] => Ok (None, [])
-  | colls =>
-      match merge_mtypes copy cs (merge_set (map keys colls)) [] [] with
-      | Ok (c, out) => Ok (nonempty_opt c, out)
-      | Err e => Err e
-      end
-  end.
-
 (* ------------------------------------------------------------------ merge_keep_ids *)
 Definition input := (kdata * store)%type.
 
@@ -334,11 +294,11 @@ Section Gen.
       match transfer_kind true skip st ins RCam [] with Err e => Err e | Ok f1 =>
       match transfer_kind true skip st ins RDepth f1 with Err e => Err e | Ok f2 =>
       match transfer_kind lidar skip st ins RLidar f2 with Err e => Err e | Ok f3 =>
-      let feat p := merge_fcoll (sk (part_of_i p)) has_out (map (fun i => (k_feat (fst i) p, s_feat (snd i) p)) ins) in
+      let feat p := merge_gcoll (sk (part_of_i p)) has_out (map (fun i => (k_feat (fst i) p, s_feat (snd i) p)) ins) in
       match feat IKp with Err e => Err e | Ok (ckp, fkp) =>
       match feat IDesc with Err e => Err e | Ok (cde, fde) =>
       match feat IGf with Err e => Err e | Ok (cgf, fgf) =>
-      match merge_mcoll (sk PMatches) has_out (map (fun i => (k_matches (fst i), s_match (snd i))) ins) with
+      match merge_gcoll (sk PMatches) has_out (map (fun i => (option_map mc_to_g (k_matches (fst i)), s_match (snd i))) ins) with
       | Err e => Err e
       | Ok (cm, fm) =>
         Ok ({| k_sensors := merge_part false (map k_sensors ds);
@@ -347,7 +307,7 @@ Section Gen.
                k_rec := fun p => merge_part (sk (part_of_r p)) (map (fun d => k_rec d p) ds);
                k_sig := fun p => merge_part3 (sk (part_of_n p)) (map (fun d => k_sig d p) ds);
                k_feat := fun p => match p with IKp => ckp | IDesc => cde | IGf => cgf end;
-               k_matches := cm |},
+               k_matches := option_map g_to_mc cm |},
             {| o_rec := f3;
                o_feat := fun p => match p with IKp => fkp | IDesc => fde | IGf => fgf end;
                o_match := fm |})
